@@ -467,6 +467,10 @@ class World(object):
                 # optional: the application calls the API again from inside this callback (once per world)
                 if r.call_step < w.step:
                     w._reenter('ok:' + r.kind, r.addr, r.qos)
+                if w.cfg.get('cb_deferred'):
+                    # the application's callback chains further asynchronous work: it returns a Deferred that has not
+                    # fired yet, which pauses everything added to the library's Deferred after it
+                    return defer.Deferred()
                 return 'application-callback-result'
 
             def err(f, r=r):
